@@ -1,11 +1,13 @@
 ---------------------------- MODULE MC_TexInputB ----------------------------
 (* Part B: the read-stream automaton over two streams and three read files     *)
 (* (two plain lines; a multi-line brace group, an unmatched }, an empty line;   *)
-(* an empty file) plus a nonexistent file (f = 0).  Dumped as an LTS for R.     *)
+(* an empty file; a file whose last line is cut short by an unmatched })        *)
+(* plus a nonexistent file (f = 0).  Dumped as an LTS for R.                    *)
 EXTENDS TexInput, TLC, Json
 T(t, c) == [t |-> t, c |-> c]
 TheFiles == << << <<T("x", 1)>>, <<T("x", 2)>> >>,
                << <<T("x", 1), T("lb", 0)>>, <<T("x", 2), T("rb", 0), T("x", 3)>>, <<T("x", 1), T("rb", 0), T("x", 2)>>, <<>> >>,
-               << >> >>
+               << >>,
+               << <<T("x", 3)>>, <<T("x", 1), T("lb", 0), T("x", 2), T("rb", 0), T("rb", 0), T("x", 3)>> >> >>
 Emit == PrintT(<<"LTS", ToJson([f |-> [s |-> str, dead |-> dead], o |-> op', t |-> [s |-> str', dead |-> dead']])>>)
 =============================================================================
